@@ -505,6 +505,146 @@ theorem readers_agree (hp : Bool) (f : SFile) (L : Nat) (start : DT) (step : Int
     · simpa [List.map_map, Function.comp_def] using htimes
     · simp [List.flatMap_cons]
 
+/-! ### the temperature record reader -/
+
+/-- a temperature file the record reader is meant for: a surface slab and `L` layer slabs per step, a regular time
+axis -/
+structure TempWF (f : SFile) (L : Nat) (start : DT) (step : Int) : Prop where
+  cells : ∀ s ∈ f.steps, ∀ c ∈ s.slabs, c.length = f.cells
+  slabs : ∀ s ∈ f.steps, s.slabs.length = L + 1
+  layers : 1 ≤ L
+  two : 2 ≤ f.steps.length
+  t0 : 0 ≤ start.2 ∧ start.2 < 2400
+  stepOk : 0 < step ∧ step ≤ 2400
+  even : step % 2 = 0
+  axis : ∀ (i : Nat) (h : i < f.steps.length),
+    (((f.steps[i].date : Nat) : Int), truncF32 f.steps[i].time) = iter start step i
+
+theorem table_of_temp (f : SFile) (L : Nat) (start : DT) (step : Int) (h : TempWF f L start step) :
+    Table ((f.steps.map framedStep).flatten) f.steps.length (L + 1) 1 (iter start step) (slabAt f) := by
+  have hm : ∀ l ∈ f.steps.map framedStep, l.length = (L + 1) * 1 := by
+    intro l hl
+    obtain ⟨s, hs, rfl⟩ := List.mem_map.mp hl
+    rw [framedStep_length, h.slabs s hs, Nat.mul_one]
+  constructor
+  · rw [flatten_length f.steps _ h.slabs, Nat.mul_comm, Nat.mul_one]
+  · intro i j hi hj
+    rw [getElem?_flatten_uniform _ _ hm i j hj]
+    have hsi : f.steps[i]? = some f.steps[i] := List.getElem?_eq_getElem hi
+    have hmem : f.steps[i] ∈ f.steps := List.getElem_mem hi
+    have hjs : j < (f.steps[i]).slabs.length := by rw [h.slabs _ hmem]; omega
+    refine ⟨frame (f.steps[i].time :: f.steps[i].date :: (f.steps[i]).slabs[j]), ?_, ?_, ?_⟩
+    · simp only [List.getElem?_map, hsi, Option.map_some, Option.bind_some, framedStep, stepRows,
+        List.getElem?_eq_getElem hjs]
+    · rw [recDT_frame]; exact h.axis i hi
+    · rw [recCells_frame]
+      simp [slabAt, hsi, List.getElem?_eq_getElem hjs]
+
+theorem wf_of_tempWF (f : SFile) (L : Nat) (start : DT) (step : Int) (h : TempWF f L start step) : WF f := by
+  refine ⟨h.cells, fun s hs s' hs' => by rw [h.slabs s hs, h.slabs s' hs'], ?_⟩
+  have h2 := h.two
+  match hst : f.steps with
+  | [] => rw [hst] at h2; simp at h2
+  | [_] => rw [hst] at h2; simp at h2
+  | s0 :: s1 :: rest =>
+    refine ⟨s0, s1, rest, rfl, ?_, ?_⟩
+    · intro heq
+      have a0 := h.axis 0 (by omega)
+      have a1 := h.axis 1 (by omega)
+      simp only [hst, List.getElem_cons_zero, List.getElem_cons_succ] at a0 a1
+      have hne := iter_ne start step h.t0 h.stepOk 1 0 (by omega)
+      apply hne
+      rw [← a0, ← a1]
+      simp only [Prod.mk.injEq] at heq
+      rw [heq.1, heq.2]
+    · have := h.slabs s0 (by rw [hst]; simp)
+      omega
+
+/-- **C13 (temperature record reader).** On every temperature file with a regular time axis the record reader
+presents the written content: steps, layers, the time of every step, the surface slab and the layer slabs of every
+step. -/
+theorem read_temp_decode_encode (f : SFile) (L : Nat) (start : DT) (step : Int) (h : TempWF f L start step) :
+    readTempDecode (encode f) = some (tempView f.steps.length (L + 1) (iter start step) (slabAt f)) := by
+  have hwf := wf_of_tempWF f L start step h
+  obtain ⟨s0, s1, rest, hst, _, hm⟩ := hwf.two
+  have hhead : (encode f).headD 0 / 4 - 2 = f.cells := by
+    obtain ⟨c0, cs, hc0⟩ : ∃ c0 cs, s0.slabs = c0 :: cs := by
+      cases hsl : s0.slabs with
+      | nil => rw [hsl] at hm; simp at hm
+      | cons c cs => exact ⟨c, cs, rfl⟩
+    have hlen : c0.length = f.cells := h.cells s0 (by rw [hst]; simp) c0 (by rw [hc0]; simp)
+    simp only [encode, rows, hst, List.map_cons, List.flatten_cons, stepRows, hc0, encodeRecs, frame,
+      List.cons_append, List.nil_append, List.headD_cons, List.length_cons, hlen]
+    rw [Nat.mul_div_cancel_left _ (show 0 < 4 by omega)]
+    rfl
+  unfold readTempDecode
+  simp only [hhead]
+  rw [if_neg (by rw [encode_whole f h.cells]; simp), chunk_records f hwf]
+  exact readTempRows_spec _ f.steps.length (L + 1) start step (slabAt f) (table_of_temp f L start step h)
+    h.t0 h.stepOk h.even h.two (by have := h.layers; omega)
+
+theorem range_map_slab0 (f : SFile) (hsl : ∀ s ∈ f.steps, 1 ≤ s.slabs.length) :
+    (List.range f.steps.length).map (fun i => slabAt f i 0) = f.steps.flatMap (fun s => s.slabs.take 1) := by
+  have h1 := range_flatMap_getElem? (fun o : Option Step => [((o.bind (·.slabs[0]?)).getD [])]) f.steps
+  have e : (List.range f.steps.length).map (fun i => slabAt f i 0) =
+      (List.range f.steps.length).flatMap (fun i => [slabAt f i 0]) := by
+    generalize List.range f.steps.length = l
+    induction l with
+    | nil => rfl
+    | cons a rest ih => simp only [List.map_cons, List.flatMap_cons, ih]; rfl
+  rw [e]
+  simp only [slabAt]
+  rw [h1]
+  apply flatMap_congr'
+  intro s hs
+  have := hsl s hs
+  cases hc : s.slabs with
+  | nil => rw [hc] at this; simp at this
+  | cons c cs => simp [hc]
+
+theorem slabs_table_drop (f : SFile) (L : Nat) (hsl : ∀ s ∈ f.steps, s.slabs.length = L + 1) :
+    (List.range f.steps.length).flatMap (fun i => (List.range L).map (fun k => slabAt f i (1 + k))) =
+      f.steps.flatMap (fun s => s.slabs.drop 1) := by
+  have := range_flatMap_getElem? (fun o : Option Step => (List.range L).map (fun k => ((o.bind (·.slabs[1 + k]?)).getD []))) f.steps
+  simp only [slabAt]
+  rw [this]
+  apply flatMap_congr'
+  intro s hs
+  simp only [Option.bind_some]
+  have hl : (s.slabs.drop 1).length = L := by rw [List.length_drop, hsl s hs]; omega
+  conv_rhs => rw [← range_map_getD [] (s.slabs.drop 1), hl]
+  apply List.map_congr_left
+  intro k _
+  rw [List.getElem?_drop]
+
+/-- **C13 (temperature: the two reader families agree).** -/
+theorem readers_agree_temperature (f : SFile) (L : Nat) (start : DT) (step : Int) (h : TempWF f L start step) :
+    (mmDecode Kind.temperature f.cells (encode f)).map
+        (fun v => (v.nt, v.nz, v.flags.map (fun p => (((p.1 : Nat) : Int), truncF32 p.2)), v.vars.map (·.2))) =
+    (readTempDecode (encode f)).map (fun v => (v.nt, v.nz, v.times, v.vars)) := by
+  have hwf := wf_of_tempWF f L start step h
+  rw [mm_decode_encode _ f hwf, read_temp_decode_encode f L start step h]
+  obtain ⟨s0, s1, rest, hst, _, _⟩ := hwf.two
+  have hs0 := h.slabs s0 (by rw [hst]; simp)
+  have htimes : f.steps.map (fun s => (((s.date : Nat) : Int), truncF32 s.time)) = (List.range f.steps.length).map (iter start step) := by
+    apply List.ext_getElem
+    · simp
+    · intro i h1 h2
+      simp only [List.length_map] at h1
+      simp only [List.getElem_map, List.getElem_range]
+      exact h.axis i h1
+  have t0 := range_map_slab0 f (fun s hs => by rw [h.slabs s hs]; omega)
+  have t1 := slabs_table_drop f L h.slabs
+  unfold viewOf
+  rw [hst] at htimes t0 t1
+  simp only [List.length_cons, List.flatMap_cons] at t0 t1
+  have hm2 : s0.slabs.length ≥ 2 := by have := h.layers; omega
+  simp only [hst, tempView, Option.map_some, Option.some.injEq, layersOf, hm2, if_true, stepVars, foldl_merge2,
+    List.map_cons, List.map_nil, Prod.mk.injEq, List.length_cons, true_and, Nat.add_sub_cancel, t0, t1]
+  refine ⟨by omega, ?_, ?_⟩
+  · simpa [List.map_map, Function.comp_def] using htimes
+  · simp [List.flatMap_cons]
+
 /-- the hypotheses of `readers_agree` are met: three hourly steps across midnight, two layers, two cells -/
 def exRead : SFile :=
   ⟨2, [⟨f32OfNat 2300, 19200, [[1, 2], [3, 4]]⟩, ⟨f32OfNat 0, 19201, [[5, 6], [7, 8]]⟩, ⟨f32OfNat 100, 19201, [[9, 10], [11, 12]]⟩]⟩
@@ -525,5 +665,19 @@ example : (readDecode false (encode exRead)).map (fun v => (v.nt, v.nz, v.times)
     some (3, 2, [(19200, 2300), (19201, 0), (19201, 100)]) := by
   rw [read_decode_encode false exRead 2 (19200, 2300) 100 exRead_wf]
   decide +kernel
+
+/-- … and those of `readers_agree_temperature`: two 12-hourly steps, one layer above the surface slab -/
+def exTemp : SFile :=
+  ⟨1, [⟨f32OfNat 1200, 19200, [[1], [2]]⟩, ⟨f32OfNat 0, 19201, [[3], [4]]⟩]⟩
+
+theorem exTemp_wf : TempWF exTemp 1 (19200, 1200) 1200 := by
+  refine ⟨by decide, by decide, by decide, by decide, by decide, by decide, by decide, ?_⟩
+  intro i h
+  have e0 : (((19200 : Nat) : Int), truncF32 (f32OfNat 1200)) = iter (19200, 1200) 1200 0 := by decide +kernel
+  have e1 : (((19201 : Nat) : Int), truncF32 (f32OfNat 0)) = iter (19200, 1200) 1200 1 := by decide +kernel
+  have h2 : i < 2 := h
+  match i, h2 with
+  | 0, _ => exact e0
+  | 1, _ => exact e1
 
 end Props.C13
